@@ -100,6 +100,9 @@ theorem ok_ld_second (hi : Int) : immOk ⟨Consts.op_W, 0, 0, 0, hi⟩ = true :=
 theorem ok_jsge (d : Nat) : immOk ⟨Consts.op_JSGE, d, 0, 1, 0⟩ = true := by
   apply ok_not_alu; simp [isAlu, cls, Consts.op_JSGE]
 
+theorem ok_jsge_w (lg : Bool) (d : Nat) : immOk ⟨absTest lg, d, 0, 1, 0⟩ = true := by
+  apply ok_not_alu; cases lg <;> simp [absTest, isAlu, cls, Consts.op_JSGE, Consts.op_SHORT]
+
 theorem ok_mem (base : Nat) (h : base = Consts.op_LD ∨ base = Consts.op_ST ∨ base = Consts.op_STX) (fmt : Fmt) (d s : Nat)
     (off c : Int) : immOk ⟨base + fmt.sizeOp, d, s, off, c⟩ = true := by
   apply ok_not_alu
@@ -114,6 +117,18 @@ theorem ok_load_shift (opc : Nat) (h : opc = Consts.op_LSH ∨ opc = Consts.op_A
     simp_all [immOk, isAlu, cls, code, useReg, aluWidth, Fmt.size, Consts.op_LSH, Consts.op_ARSH, Consts.op_LONG, longBit]
 
 /-! ## the generator functions -/
+
+theorem absTail_keeps (reg : Nat) (long : Bool) : Keeps (absTail reg long) := by
+  intro g a g' h hg
+  obtain ⟨_, ht⟩ := absTail_ok h
+  cases ht
+  intro j hj
+  rcases List.mem_append.mp hj with hj | hj
+  · exact hg j hj
+  · simp at hj
+    rcases hj with hj | hj <;> subst hj
+    · exact ok_jsge_w _ _
+    · exact ok_neg _ _
 
 theorem load_keeps (d src : Nat) (off : Int) (fmt : Fmt) (long : Option Bool) : Keeps (load d src off fmt long) := by
   unfold load
@@ -179,16 +194,13 @@ theorem calc_keeps (e : Expr) : ∀ (dst : Option Nat) (long : Option Bool) (for
   | neg a ih =>
     intro dst long force
     simp only [calculate]
+    refine keeps_bind (keeps_getFree _) fun ⟨d, rel⟩ => ?_
     exact keeps_bind (ih _ _ _) fun res => keeps_bind (keeps_emit (ok_neg _ _)) fun _ => keeps_pure _
   | abs a ih =>
     intro dst long force
     simp only [calculate]
-    refine keeps_bind (ih _ _ _) fun res => keeps_bind keeps_getOwners fun os => ?_
-    split
-    · exact keeps_bind (keeps_fail _) fun _ => keeps_bind (keeps_emit (ok_jsge _)) fun _ =>
-        keeps_bind (keeps_addOwner _) fun _ => keeps_bind (keeps_emit (ok_neg_long _)) fun _ => keeps_pure _
-    · exact keeps_bind (keeps_emit (ok_jsge _)) fun _ =>
-        keeps_bind (keeps_addOwner _) fun _ => keeps_bind (keeps_emit (ok_neg_long _)) fun _ => keeps_pure _
+    refine keeps_bind (keeps_getFree _) fun ⟨d, rel⟩ => ?_
+    exact keeps_bind (ih _ _ _) fun res => keeps_bind (absTail_keeps _ _) fun _ => keeps_pure _
   | mem fmt addr ih =>
     intro dst long force
     simp only [calculate]
